@@ -1,0 +1,73 @@
+//go:build verif
+// +build verif
+
+package dkg
+
+import (
+	"context"
+	"math/big"
+
+	"github.com/DOSNetwork/core/log"
+	"github.com/DOSNetwork/core/p2p"
+	vss "github.com/DOSNetwork/core/share/vss/pedersen"
+	"github.com/DOSNetwork/core/suites"
+	"github.com/dedis/kyber"
+)
+
+// Verification hooks (build tag verif): thin exports, no logic of their own.
+
+// VerifSession is one (buffer, pending request) pair of pdkg.Loop, e.g. the
+// sessionResps / sessionReResps maps, driven in a serialised way.
+type VerifSession struct {
+	Buf map[string][]interface{}
+	Req map[string]request
+}
+
+func VerifNewSession() *VerifSession {
+	return &VerifSession{Buf: make(map[string][]interface{}), Req: map[string]request{}}
+}
+
+// PeerMsg is handlePeerMsg on this pair of maps.
+func (s *VerifSession) PeerMsg(sessionID string, content interface{}) {
+	handlePeerMsg(s.Buf, s.Req, nil, sessionID, content)
+}
+
+// Request is handleRequest on this pair of maps (reply should be buffered: the send is synchronous).
+func (s *VerifSession) Request(ctx context.Context, reqType int, sessionID string, numOfResps int, reply chan []interface{}) {
+	handleRequest(s.Buf, s.Req, request{ctx: ctx, reqType: reqType, sessionID: sessionID, numOfResps: numOfResps, reply: reply})
+}
+
+// Pending reports whether a request is registered for the session id.
+func (s *VerifSession) Pending(sessionID string) bool { _, ok := s.Req[sessionID]; return ok }
+
+// pipeline stages of Grouping
+func VerifGenDistKeyGenerator(ctx context.Context, secrc chan kyber.Scalar, partPubs chan []*PublicKey, numOfPubkeys int, suite suites.Suite, sessionID string) (chan *DistKeyGenerator, chan error) {
+	return genDistKeyGenerator(ctx, log.New("module", "dkg"), secrc, partPubs, numOfPubkeys, suite, sessionID)
+}
+func VerifGenDealsAndSend(ctx context.Context, dkgc chan *DistKeyGenerator, p p2p.P2PInterface, groupIds [][]byte, sessionID string) (chan *DistKeyGenerator, chan error) {
+	return genDealsAndSend(ctx, log.New("module", "dkg"), dkgc, p, groupIds, sessionID)
+}
+func VerifGetAndProcessDeals(ctx context.Context, dkgc chan *DistKeyGenerator, dealsc chan []interface{}, sessionID string) (chan *DistKeyGenerator, chan interface{}, chan error) {
+	return getAndProcessDeals(ctx, log.New("module", "dkg"), dkgc, dealsc, sessionID)
+}
+func VerifGetAndProcessResponses(ctx context.Context, dkgc chan *DistKeyGenerator, respsc chan []interface{}, sessionID string) (chan *DistKeyGenerator, chan error) {
+	return getAndProcessResponses(ctx, log.New("module", "dkg"), dkgc, respsc, sessionID)
+}
+
+// VerifGenGroup runs genGroup; the returned accessor gives the stored share / public polynomial commitments.
+func VerifGenGroup(ctx context.Context, suite suites.Suite, dkgc <-chan *DistKeyGenerator, sessionID string) (chan [5]*big.Int, chan error, func() *DistKeyShare) {
+	g := &group{}
+	out, errc := genGroup(ctx, log.New("module", "dkg"), g, suite, dkgc, sessionID)
+	return out, errc, func() *DistKeyShare { return g.secShare }
+}
+
+// VerifVerifier gives the per-dealer verifier of a generator (nil if none).
+func (d *DistKeyGenerator) VerifVerifier(idx uint32) *vss.Verifier { return d.verifiers[idx] }
+
+// VerifDealer gives the generator's own dealer.
+func (d *DistKeyGenerator) VerifDealer() *vss.Dealer { return d.dealer }
+
+// VerifNewDistKeyGenerator is initDistKeyGenerator (secret chosen by the caller).
+func VerifNewDistKeyGenerator(suite Suite, longterm kyber.Scalar, participants []kyber.Point, t int, secret kyber.Scalar) (*DistKeyGenerator, error) {
+	return initDistKeyGenerator(suite, longterm, participants, t, secret)
+}
